@@ -124,7 +124,8 @@ def run(F, R, tier):
         f = F.fn(spec["pkt_enc"])
         if not R.anchor("serialiser of %s" % spec["pkt"], f):
             continue
-        b = H.body_of(f)
+        # (a shared `append_body(bytes, inner, rawdata, offset)` / `append_raw_tail(..)` helper is read as part of the serialiser)
+        b = H.inline_helpers(F, H.body_of(f), max_size=300, skip=lambda c_: c_.startswith("<") or "::<impl " in c_)
         arg_id = f["hir"]["params"][0].get("id")
         # what the serialiser appends, in order, on every path: resolved through named temporaries / borrows / clones
         lets, somes = {}, {}
@@ -166,7 +167,10 @@ def run(F, R, tier):
             if e.get("k") == "index":
                 base, i = cls(e["e"], d + 1), H.strip(e["i"])
                 if base == ("whole", "rawdata") and i.get("k") == "struct" and H.last(i["res"].get("path") or "") == "RangeFrom":
-                    st = cls(i["fields"][0]["e"], d + 1)
+                    s0 = H.strip(i["fields"][0]["e"])
+                    if s0.get("k") == "lit" and s0.get("v") == 0:
+                        return base   # data[0..] is all of it
+                    st = cls(s0, d + 1)
                     return ("tail", "rawdata", st)
                 return "?"
             return "?"
@@ -286,6 +290,9 @@ def run(F, R, tier):
         k = e.get("k")
         if k == "field":
             return e["name"] == "rawdata"
+        if H.local_id(e) in cur_lets and depth < 6:
+            # `let rawdata = Rc::clone(&eth.rawdata.borrow()); .. X::from_bytes(rawdata, ..)`
+            return whole_rawdata(cur_lets[H.local_id(e)], depth + 1)
         if k in ("ref", "un"):
             return whole_rawdata(e["e"], depth)
         if k == "mcall" and e["m"] in ("clone", "borrow", "as_ref", "deref", "to_owned") and not e.get("args"):
@@ -316,12 +323,16 @@ def run(F, R, tier):
                 return bool(leaves) and all(res(l[0] if isinstance(l, tuple) else l) for l in leaves)
         return False
     n_lazy = 0
+    cur_lets = {}
     for p, g in sorted(F.fns.items()):
         if not p.startswith("vm::pktprop::") and not p.startswith("vm::interpreter::"):
             continue
         b = H.body_of(g)
         if b is None:
             continue
+        cur_lets.clear()
+        cur_lets.update({x["pat"]["id"]: x["init"] for x in H.walk(b) if x.get("k") == "let" and x.get("pat", {}).get("k") == "bind" and x.get("init") is not None
+                         and "Mut" not in str(x["pat"].get("mode", ""))})
         k_ = 0
         for c in H.walk(b):
             cal = c.get("callee") or ""
